@@ -1099,6 +1099,46 @@ func c13GenTurnover(r *Rng) c13Case {
 	return c
 }
 
+// tagged-histogram bursts under a large packet budget: "every value reported ...
+// appears in exactly one emitted batch" also when hundreds of samples of a
+// histogram with a sizeable tag set of its own are queued between two flushes,
+// i.e. when the batches grow to the packet budget (default 32768 bytes and more)
+func c13GenHistBurst(r *Rng) c13Case {
+	c := c13Case{Kind: "exact", Producers: 1, Proto: []string{"compact", "binary"}[r.Intn(2)], Dests: 1,
+		Queue: []int{4096, 4096, 2}[r.Intn(3)], MaxPacket: []int32{0, 32768, 48000}[r.Intn(3)], Service: "svc", Env: "test"}
+	ntags := r.Range(6, 14)
+	tags := map[B]B{}
+	for i := 0; i < ntags; i++ {
+		tags[B(fmt.Sprintf("tag%02d", i))] = B(c13Long[:r.Range(10, 40)] + strconv.Itoa(i))
+	}
+	dur := r.Bool()
+	hist := c13Op{Op: "hist", Name: "hb", Tags: tags}
+	bucket := c13Op{Op: "bucket", H: 0}
+	if dur {
+		hist.Dur = true
+		for i := 1; i <= 10; i++ {
+			hist.B = append(hist.B, int64(i)*1000000)
+		}
+		bucket.Ub, bucket.Dur = hist.B[r.Intn(10)], true
+	} else {
+		for i := 1; i <= 10; i++ {
+			hist.B = append(hist.B, fbits(float64(i)*2.5))
+		}
+		bucket.Ub = hist.B[r.Intn(10)]
+	}
+	n := r.Range(200, 420)
+	c.Ops = []c13Op{hist, bucket,
+		{Op: "alloc", K: 1, Name: "plain", Tags: map[B]B{"a": "b"}},
+		{Op: "rep", H: 2, V: 1},
+		{Op: "burst", H: 1, N: n, V: 1000},
+		{Op: "rep", H: 2, V: 2},
+	}
+	if r.Bool() {
+		c.Ops = append(c.Ops, c13Op{Op: "flush"}, c13Op{Op: "burst", H: 1, N: n, V: 5000}, c13Op{Op: "rep", H: 2, V: 3})
+	}
+	return c
+}
+
 // tag-set sizes around the capacity of the pooled tag slices (batchPoolSize = 10) and well beyond
 var c13ManyTags = []int{9, 10, 11, 12, 13, 17, 25, 40}
 
@@ -1558,6 +1598,10 @@ func init() {
 		}
 		for i, nt := 0, ctx.N(3, 12); i < nt; i++ {
 			c := c13GenTurnover(ctx.R)
+			one(&c, false)
+		}
+		for i, nh := 0, ctx.N(3, 20); i < nh; i++ {
+			c := c13GenHistBurst(ctx.R)
 			one(&c, false)
 		}
 		// shared handles: small histories through the model, large ones by the direct predicate only
